@@ -11,11 +11,19 @@ from .values import Unsupported, INT
 
 def mask_lits(s):
     """replace the inside of string literals by '_' so bracket matching is not confused"""
-    if '"' not in s:
+    if '"' not in s and "'" not in s:
         return s
     out = []; inq = False; i = 0; n = len(s)
     while i < n:
         ch = s[i]
+        if not inq and ch == "'":
+            # char literal 'x' or '\x..' (a lifetime 'a has no closing quote right after)
+            if i + 2 < n and s[i + 1] != '\\' and s[i + 2] == "'":
+                out.append("'_'"); i += 3; continue
+            if i + 1 < n and s[i + 1] == '\\':
+                j = s.find("'", i + 2)
+                if 0 < j <= i + 12:
+                    out.append("'" + '_' * (j - i - 1) + "'"); i = j + 1; continue
         if inq:
             if ch == '\\' and i + 1 < n:
                 out.append('__'); i += 2; continue
